@@ -4,6 +4,11 @@ import json, os
 HERE = os.path.dirname(os.path.dirname(os.path.abspath(__file__)))
 ALL = ["C%02d" % i for i in range(1, 21)]
 CHECKS = {
+ "C20": dict(
+   technique="TLA+ spec Cycles.tla: shapes (relation kind x cycle length x tail) are initial states, the reference walker with a visited set is model-checked to take at most T+L steps and the walker without one is refuted; every shape is rendered to a workspace and, in a killable child process, indexed, diagnosed and queried with every positional request at every identifier",
+   text="7 relation kinds (USE, EXTENDS with overriding bindings, submodule ancestry, pointer =>, ASSOCIATE, procedure binding =>, INCLUDE) x cycle lengths 1..3 (quick) / 1..4 x tails 0..1: the child must finish within the wall-clock limit and no request may answer with an internal error.",
+   note="Trusted: TLC, shape renderer, child-process time limit (60 s per workspace of < 40 lines; typical < 1 s).",
+   design="4/C20"),
  "C15": dict(
    technique="TLA+ spec InitIndex.tla (worker pool: dispatch/finish/merge in completion order, link phases after the last merge, and the open-one-at-a-time path): TLC proves confluence of the design over all interleavings for two dependency graphs and refutes the named deviation linkWhileMerging; the implementation is run in child processes over worker counts, permuted directory enumeration, hash seeds and every opening order, and the full query batteries are compared",
    text="Three workspaces (type links; INCLUDE+EXTENDS; SUBMODULE + 3-level EXTENDS chain) x 12 (quick) / up to 120 configurations each: nthreads in {1,2,3,4,8,16}, permutations of the listing, PYTHONHASHSEED in {0,1,2}, start-up path vs opening one at a time.",
